@@ -333,6 +333,43 @@ theorem mul_mod_special_wrong_at_max :
   · unfold WF; decide
   all_goals decide
 
+/-- T07.3d REPAIR VERIFIED: with the increment done in the wide type
+    (`(carry.0 as WideWord + 1) * c`, the patch proposed in notes/C07.md) `mul_mod_special` returns
+    `a·b mod p` for EVERY width `≥ 1`, every `1 ≤ c < 2^64` (including `c = MAX`) and all operands —
+    the full statement above, without side condition.  `mulModSpecialRepaired` is not what /repo
+    computes today; on the witness of T07.3c it returns the correct residue. -/
+theorem mul_mod_special_repaired_spec {a b : List Nat} {c : Nat} (ha : WF a) (hb : WF b)
+    (hab : a.length = b.length) (hn : 1 ≤ a.length) (hc1 : 1 ≤ c) (hc : c < B) :
+    val (mulModSpecialRepaired a b c) = (val a * val b) % (B ^ a.length - c) ∧
+    val (mulModSpecialRepaired a b c) < B ^ a.length - c := by
+  have hpos : 0 < B ^ a.length - c := by
+    have : B ^ 1 ≤ B ^ a.length := Nat.pow_le_pow_right B_pos hn
+    simp only [Nat.pow_one] at this; omega
+  by_cases h1 : a.length = 1
+  · match a, b, h1, hab with
+    | [x], [y], _, _ =>
+      have hd : mulModSpecialRepaired [x] [y] c = [(x * y) % (wsub 0 c)] := rfl
+      have hmod : x * y % (B - c) < B - c := Nat.mod_lt _ (by omega)
+      rw [hd, wsub_zero hc1 hc]
+      simp only [val_cons, val_nil, Nat.mul_zero, Nat.add_zero, List.length_cons, List.length_nil,
+        Nat.zero_add, Nat.pow_one]
+      exact ⟨trivial, hmod⟩
+  · have hn2 : 2 ≤ a.length := by omega
+    have hd : mulModSpecialRepaired a b c =
+        specialReduceRepaired (toLimbs a.length (val a * val b))
+          (toLimbs a.length (val a * val b / B ^ a.length)) c := by
+      unfold mulModSpecialRepaired; rw [if_neg h1]
+    have ⟨r1, _, _⟩ := specialReduceRepaired_spec (toLimbs_WF a.length (val a * val b))
+      (toLimbs_WF a.length (val a * val b / B ^ a.length))
+      (by rw [toLimbs_length, toLimbs_length]) (by rw [toLimbs_length]; exact hn2) hc1 hc
+    rw [toLimbs_length] at r1
+    rw [split_product ha hb hab] at r1
+    rw [hd]
+    exact ⟨r1, by rw [r1]; exact Nat.mod_lt _ hpos⟩
+
+example : val (mulModSpecialRepaired [0, WMAX - 1, WMAX] [0, WMAX - 1, WMAX] WMAX)
+    = 0x100000000000000020000000000000001 := by decide
+
 /-! ## T07.4 `div_by_2` (halving modulo an odd modulus) -/
 
 /-- arithmetic core: `t = a + (p if a odd)` is even, `t/2 < p` and `2·(t/2) ≡ a (mod p)`. -/
